@@ -277,6 +277,7 @@ pub struct ProcObs {
     pub last_try_wait_running: Option<bool>,
     pub read_after_drop: bool,
     pub exit_at: u64,
+    pub spawn_at: u64,
 }
 
 #[derive(Clone, Debug, Default)]
@@ -317,6 +318,7 @@ pub fn observe() -> WorldObs {
                 last_try_wait_running: p.last_try_wait_running,
                 read_after_drop: p.read_after_drop,
                 exit_at: p.exit_at,
+                spawn_at: p.spawn_at,
             })
             .collect(),
         now_ms: st.now_ms,
